@@ -4,7 +4,7 @@ import re
 from .. import cfg
 from ..anchors import dispatch_cone, handler, action_closures, action_instances, is_user_code
 from ..effects import Cone, classify, is_leaf, is_panicking_api, norm, _tsv
-from ..facts import strip_generics, AnchorLost
+from ..facts import strip_generics, keyname, AnchorLost
 from ..flow import flow, fold, strip, deep_strip, show, mentions
 from ..conds import facts_at, truth
 
@@ -48,7 +48,7 @@ def rule_a(ctx):
     ioerr, free_outside, bad_ctor, cut = _io_error_refinement(ctx, F, cone, rid)
     for iid, (cls, note) in sorted(cone.leaves.items()):
         li = F.inst[iid]
-        key = "leaf:%s" % norm(strip_generics(li.name))
+        key = "leaf:%s" % norm(keyname(li.name))
         if cls in FORBIDDEN:
             if cls == "FREE" and not free_outside and not bad_ctor and ioerr:
                 ctx.ok(rid, key, "FREE reachable only below drop_in_place::<io::Error> (Custom variant); no allocating "
@@ -62,14 +62,14 @@ def rule_a(ctx):
                     {"class": cls, "note": note, "call_chain": chain,
                      "allocating_io_error_ctor": [b.name for b in bad_ctor][:3]})
         elif cls in ALLOWED:
-            ctx.ok(rid, key, "%s leaf `%s` %s" % (cls, li.symbol or strip_generics(li.name), ("— " + note) if note else ""))
+            ctx.ok(rid, key, "%s leaf `%s` %s" % (cls, li.symbol or keyname(li.name), ("— " + note) if note else ""))
         else:
             ctx.bad(rid, key, "leaf with unknown class %s" % cls, None, {"call_chain": cone.chain_text(iid)})
     # indirect calls: only the chained previous handler (address read from the saved sigaction)
     for (fi, bb, t) in cone.indirect:
         ex = flow(fi).term_operand(bb, t["fop"])
         okk = any(mentions(e, lambda x: x[0] == "field" and x[2] in ("sa_sigaction", "sa_handler")) for e in ex)
-        ctx.check(okk, rid, "indirect:%s" % strip_generics(fi.name),
+        ctx.check(okk, rid, "indirect:%s" % keyname(fi.name),
                   "indirect call in %s is the chained previous handler (pointer read from the saved sigaction)" % fi.name,
                   t["sp"], {"fn_pointer": [show(e) for e in ex]})
         ctx.analysed["call_sites"] += 1
@@ -88,7 +88,7 @@ def rule_a(ctx):
             if cls != "SAFE_FFI_BLOCK":
                 continue
             sym = ci.symbol
-            key = "ffi:%s@%s" % (sym, strip_generics(m.name))
+            key = "ffi:%s@%s" % (sym, keyname(m.name))
             if sym in ("send", "recv", "sendto", "recvfrom", "sendmsg", "recvmsg"):
                 fl = flow(m).term_arg(bb, 3)
                 vals = [fold(e) for e in fl]
@@ -177,7 +177,7 @@ def rule_b(ctx, cone=None, rid="C03.b", floor=3):
         ctx.fn(m)
         for comp in cfg.cycles(m):
             k = _loop_kind(F, m, comp)
-            key = "loop:%s#%d" % (strip_generics(m.name), len(comp))
+            key = "loop:%s#%d" % (keyname(m.name), len(comp))
             where = m.term(min(comp))["sp"]
             if k is None:
                 ctx.bad(rid, key, "loop in %s is neither iterator-driven nor a CAS-retry loop" % m.name, where,
@@ -238,17 +238,27 @@ def panic_sites(F, m):
         elif t["k"] == "call" and t.get("f") is not None:
             ci = F.inst[t["f"]]
             if is_leaf(ci) and classify(ci)[0] == "PANIC":
-                out.append(("panic", "panic:%s" % norm(strip_generics(ci.name)), bb, t["sp"], {}))
+                out.append(("panic", "panic:%s" % norm(keyname(ci.name)), bb, t["sp"], {}))
             elif is_panicking_api(ci) and not norm(ci.defp).startswith("std::sync::atomic::"):
                 selfarg = ci.args[0] if ci.args else ""
                 out.append(("api", "api:%s:%s" % (norm(strip_generics(ci.defp)), selfarg), bb, t["sp"], {"callee": ci.name}))
     return out
 
 
-def _discharge_global_init(ctx, F):
-    """Option<&GlobalData>::unwrap in the dispatcher: the handler is installed only after the Once-guarded
-    initialisation completed (init call dominates the installing call in every function that installs)."""
+def _discharge_global_init(ctx, F, m=None):
+    """Option<&GlobalData>::unwrap: (1) in the dispatcher the handler is installed only after the Once-guarded
+    initialisation completed (init call dominates the installing call in every function that installs);
+    (2) every other caller of the accessor calls it after a dominating Once::call_once in the same function."""
     h = handler(F)
+    if m is not None:
+        for (cid, k, bb) in F.callers().get(m.id, []):
+            ci = F.inst[cid]
+            if cid == h.id or ci.body is None or k != "call":
+                continue
+            dom = cfg.dominators(ci)
+            once = [b for b, t in ci.calls() if t.get("f") is not None and F.inst[t["f"]].defp == "std::sync::once::Once::call_once"]
+            if not any(o in dom[bb] and o != bb for o in once):
+                return False, "%s calls the accessor without a dominating Once::call_once" % ci.name
     installers = [i for i in F.inst if i.body is not None and any(k == "reify" and t == h.id for (t, k, b) in F.edges(i))]
     if not installers:
         return False, "no function takes the dispatcher's address"
@@ -307,7 +317,7 @@ def _discharge(ctx, F, m, site):
                         return True, why
         return False, None
     if kind == "api" and key.startswith("api:std::option::Option::unwrap:&signal_hook_registry::GlobalData"):
-        return _discharge_global_init(ctx, F)
+        return _discharge_global_init(ctx, F, m)
     return False, None
 
 
@@ -382,7 +392,7 @@ def rule_c(ctx, cone=None, rid="C03.c", floor=6, scope="dispatch"):
         for site in panic_sites(F, m):
             kind, key, bb, sp, info = site
             okk, why = _discharge(ctx, F, m, site)
-            full = "%s@%s" % (key, strip_generics(m.name))
+            full = "%s@%s" % (key, keyname(m.name))
             if okk:
                 ctx.ok(rid, full, "panic site discharged: %s" % why, sp)
                 continue
@@ -404,3 +414,22 @@ def run(ctx):
     ctx.assume("std/hashbrown functions with MIR are walked; only MIR-less functions are trusted by leaf class (oracle/std_leaf_classes.tsv)")
     ctx.assume("arithmetic-overflow asserts exist only in debug profiles and are not analysed (facts are extracted with overflow-checks off)")
     ctx.note("not decided: a numeric step bound; panic-freedom of the audited sites as a value-level theorem")
+
+
+def undischarged_sites(ctx, F, roots, scope="mutator", stop=None):
+    """explicit panic sites in workspace frames reachable from `roots` that no rule discharges and no audit covers:
+    [(frame, site, chain)]"""
+    cone = Cone(F, roots, stop=stop)
+    aud = _audited(scope)
+    out = []
+    for m in cone.members:
+        if not (m.local and m.body is not None) or is_user_code(m):
+            continue
+        for site in panic_sites(F, m):
+            okk, why = _discharge(ctx, F, m, site)
+            if okk:
+                continue
+            if any(rx.match(site[1]) for (rx, _) in aud):
+                continue
+            out.append((m, site, cone.chain_text(m.id)))
+    return out, cone
